@@ -27,7 +27,7 @@ func main() {
 			Rule: "the concurrent form of C18 inside a live dkv.DB: the gated histories of C07 (a compaction parked before its swap while flushes keep adding level-0 tables, a flush parked before its swap, swaps released inside read windows), every Get/ScanPrefix compared with the sequential map before, during and after each compaction swap; non-trivial = >=1 episode actually parked; distinct by (options, op list) hash"},
 		&lib.Prop{ID: "C08", Part: "checkpoints", Level: "fault_enumeration", NCases: n(300, 8000), Run: c08Case,
 			Assumptions: append([]string{"database objects whose checkpoints are still retained stay referenced (dropping them is C09's subject)", "files are published atomically at Save; a crash image is the set of files durable after the first k storage operations", "a second Checkpoint is only called after the previous save completed (the operator waits synchronously)", "after a restore the job abandons the other checkpoints of the previous incarnation"}, c07Assume...),
-			Rule:        "C07 histories with Checkpoint injected at seeded points in seven modes (synchronous; writes during the save; save task held before the WAL save / before the list save while writes and flushes continue; flush parked before start / before swap when Checkpoint is called; directly after another checkpoint; a retention update's save of the checkpoints document held while the next checkpoint is taken and saved), with UpdateRetainedCheckpoints, forced GC rounds, restores into another directory and into the SAME directory, promotion of the restored db (chains up to depth 4) and, for every retained checkpoint, restores on CRASH IMAGES cut after individual storage operations following the handle (all when <=30, else first/last + seeded sample); every restored db is compared with the model snapshot taken at the Checkpoint call (Get over the universe, ScanPrefix(nil) and every prefix); non-trivial = >=1 checkpoint restored and compared; distinct by (options, op list) hash"},
+			Rule:        "C07 histories with Checkpoint injected at seeded points in seven modes (synchronous; writes during the save; save task held before the WAL save / before the list save while writes and flushes continue; flush parked before start / before swap when Checkpoint is called; directly after another checkpoint; a retention update's save of the checkpoints document held while the next checkpoint is taken and saved); 1 case in 6 starts with a lineage of 8..14 checkpoints (file numbers beyond one digit), with UpdateRetainedCheckpoints, forced GC rounds, restores into another directory and into the SAME directory, promotion of the restored db (chains up to depth 4) and, for every retained checkpoint, restores on CRASH IMAGES cut after individual storage operations following the handle (all when <=30, else first/last + seeded sample); every restored db is compared with the model snapshot taken at the Checkpoint call (Get over the universe, ScanPrefix(nil) and every prefix); non-trivial = >=1 checkpoint restored and compared; distinct by (options, op list) hash"},
 		&lib.Prop{ID: "C09", Part: "single", Level: "exploration", NCases: n(150, 4000), Run: c09Single,
 			Assumptions: []string{"every storage operation goes through the instrumented FileSystem (existence and content hash come from its log)", "forced GC rounds: a cleanup that has not run yet can only hide a violation, never fabricate one"},
 			Rule:        "one database lifetime: write histories with synchronous checkpoints, UpdateRetainedCheckpoints over seeded subsets, forced GC rounds until the delete log is stable, under the C07 option classes; after every checkpoint / retention update / GC round the reference set = tables of the live level set (verif accessor) + WAL and table URIs of every checkpoint in the latest saved `checkpoints` document is checked to exist with the content hash it had when first referenced; after a retention update WAL files referenced only by dropped checkpoints must be gone; retained checkpoints are restored at the end; non-trivial = >=1 checkpoint and >3 reference checks; distinct by (options, ops) hash"},
